@@ -65,7 +65,7 @@ impl<'a> RequirementsResolver<'a> {
                 let (func, _) = self
                     .debugee
                     .debug_info(ecx.location().pc)?
-                    .find_function_by_pc(loc.global_pc)?
+                    .find_function_by_pc(ecx.lookup_pc())?
                     .ok_or(FunctionNotFound(loc.global_pc))?;
                 let base_addr = func.frame_base_addr(ecx, self.debugee)?;
                 Ok(*e.insert(base_addr))
@@ -110,7 +110,7 @@ impl<'a> RequirementsResolver<'a> {
         let (current_fn, _) = self
             .debugee
             .debug_info(ecx.location().pc)?
-            .find_function_by_pc(current_loc.global_pc)?
+            .find_function_by_pc(ecx.lookup_pc())?
             .ok_or(FunctionNotFound(current_loc.global_pc))?;
         let entry_pc: GlobalAddress = current_fn.start_instruction()?;
 
